@@ -1101,6 +1101,18 @@ func Analyse(r *rec.Recorder, out []byte, b *Built, tmpdir, tag string, k int) {
 // ---------------------------------------------------------------------------
 // sinks
 
+// refLenOf is the length of a complete rendering of a fresh copy of the program.
+func refLenOf(p Prog, seed int64, tmpdir string) int {
+	fb, err := Build(p, seed, 0, "", tmpdir)
+	if err != nil {
+		return 0
+	}
+	defer fb.Close()
+	var rb bytes.Buffer
+	_, _, _ = safeWriteTo(fb.Msg, &rb)
+	return rb.Len()
+}
+
 // readAll drains a reader with Read calls of the given size (io.Copy would always use one large buffer).
 func readAll(dst *bytes.Buffer, src io.Reader, size int) (int64, error) {
 	buf := make([]byte, size)
@@ -1127,6 +1139,7 @@ type limitSink struct {
 	silent   bool // short writes WITHOUT an error (a sink that breaks the io.Writer contract)
 	at       int // the one write call (1-based) that is short
 	calls    int
+	hit      bool // the sink has refused (part of) a write
 }
 
 var errSink = errors.New("scripted sink failure")
@@ -1154,6 +1167,7 @@ func (s *limitSink) Write(p []byte) (int, error) {
 		room = 0
 	}
 	s.accepted += room
+	s.hit = true
 	return room, errSink
 }
 
@@ -1308,10 +1322,26 @@ func (rn *Runner) Run() {
 				_ = os.Remove(path)
 			}
 			n = int64(out.Len())
+		case "ReaderHalf", "ReaderExact": // the Reader is not drained: read half of it / exactly to its last byte (no EOF seen)
+			guard(func() {
+				if reader == nil {
+					reader = built.Msg.NewReader()
+				} else {
+					built.Msg.UpdateReader(reader)
+				}
+				total := refLenOf(sc.Prog, seed, rn.TmpDir)
+				want := total / 2
+				if op == "ReaderExact" {
+					want = total
+				}
+				buf := make([]byte, want)
+				_, _ = io.ReadFull(reader, buf)
+			})
+			continue
 		case "BreakSrc", "FixSrc": // producers start / stop failing
 			built.Broken.On = op == "BreakSrc"
 			continue
-		case "FailSink", "FailSinkMid", "FailSinkLate": // a failed render in the middle of a history
+		case "FailSink", "FailSinkMid", "FailSinkLate", "FailSink25", "FailSink75", "FailSink90": // a failed render in the middle of a history
 			at := 200
 			if op != "FailSink" {
 				if refLen == 0 { // length of a complete rendering, from a fresh copy of the message
@@ -1323,8 +1353,15 @@ func (rn *Runner) Run() {
 					}
 				}
 				at = refLen / 2
-				if op == "FailSinkLate" {
+				switch op {
+				case "FailSinkLate":
 					at = refLen - 40
+				case "FailSink25":
+					at = refLen / 4
+				case "FailSink75":
+					at = refLen * 3 / 4
+				case "FailSink90":
+					at = refLen * 9 / 10
 				}
 				if at < 0 {
 					at = 0
@@ -1394,6 +1431,9 @@ func (rn *Runner) Run() {
 				s := &limitSink{k: k}
 				n, werr, pan := safeWriteTo(fb.Msg, s)
 				fb.Close()
+				if !s.hit && pan == "" { // (the renderings of a signed message differ in length by a few bytes: this one ended before offset k)
+					continue
+				}
 				r.Emit("out", "k", k, "op", "sink", "ok", false, "err", werr != nil, "panic", pan != "", "n", n,
 					"accepted", s.accepted, "len", len(first), "id", 0, "faulted", true, "text", clipErr(werr, pan))
 			}
